@@ -67,6 +67,15 @@ def _deep_not(n: int) -> bytes:
     return _tlv(0x30, _tlv(2, b"\x01") + _tlv(0x63, body))
 
 
+def _nested_bad_filter(n: int) -> bytes:
+    """A SearchRequest with an unknown filter choice under n NOT filters (the decoder fails deep inside nested filters)."""
+    f = _tlv(0x9F, b"cn")
+    for _ in range(n):
+        f = _tlv(0xA2, f)
+    body = _tlv(4, b"") + _tlv(10, b"\x00") + _tlv(10, b"\x00") + _tlv(2, b"\x00") + _tlv(2, b"\x00") + _tlv(1, b"\x00") + f + _tlv(0x30, b"")
+    return _tlv(0x30, _tlv(2, b"\x01") + _tlv(0x63, body))
+
+
 GARBAGE = [
     ("bad-outer-tag", lambda r: _tlv(0x04, b"\x00")),
     ("unknown-op", lambda r: _tlv(0x30, _tlv(2, b"\x01") + _tlv(0x6A, b""))),
@@ -79,6 +88,7 @@ GARBAGE = [
     ("bad-utf8", lambda r: _tlv(0x30, _tlv(2, b"\x01") + _tlv(0x77, _tlv(0x80, b"\xff\xfe")))),
     ("bad-enum", lambda r: _tlv(0x30, _tlv(2, b"\x01") + _tlv(0x63, _tlv(4, b"") + _tlv(10, b"\x09") + _tlv(10, b"\x00") + _tlv(2, b"\x00") + _tlv(2, b"\x00") + _tlv(1, b"\x00") + _tlv(0x87, b"cn") + _tlv(0x30, b"")))),
     ("deep-not-nesting", lambda r: _deep_not(r.choice((40, 400, 1200, 3000)))),
+    ("nested-unknown-filter", lambda r: _nested_bad_filter(r.choice((3, 40, 60)))),
     ("unknown-filter", lambda r: _tlv(0x30, _tlv(2, b"\x01") + _tlv(0x63, _tlv(4, b"") + _tlv(10, b"\x00") + _tlv(10, b"\x00") + _tlv(2, b"\x00") + _tlv(2, b"\x00") + _tlv(1, b"\x00") + _tlv(0x9F, b"cn") + _tlv(0x30, b"")))),
 ]
 
